@@ -37,4 +37,87 @@ PLACE = dict(
               f'{Z_}._current_address', 'target(lobj._label_scope, kind_of(lobj._label))._labels[*]'],
     allocates=True)
 
-contract(ENG, props=['C02', 'C05'], name='engine', blocks_only=True, blocks={'place': PLACE})
+
+
+# ---- second pass: emitted == reserved (C02) and no two byte-producing lines share an address (C04) ----------------
+LST = 'compilable_line_obs'
+Lj = f'elems({LST})[j]'
+Lk = f'elems({LST})[k]'
+N = f'len({LST})'
+
+
+@spec
+def is_bytes_line(l):
+    return isa(l, 'LineWithBytes')
+
+
+@spec
+def a_of(l):
+    return value_of(line_addr(l))
+
+
+@spec
+def end_of(l):
+    """one past the last address the line occupies"""
+    return value_of(line_addr(l)) + line_size(l)
+
+
+@spec
+def addressable(l):
+    """the line has been placed, and asking for its address cannot fail any more"""
+    return (line_addr(l) is not None
+            and implies(isa(l, 'AddressOrgLine'), 'GLOBAL' in l._memzone_manager._zones and not org_fails(l)))
+
+
+def all_lines(body, lo='0', hi=N, var='j'):
+    return f'forall(lambda {var}: implies({lo} <= {var} and {var} < {hi}, {body}))'
+
+
+LIST_OK = [
+    all_lines(f'line_wf({Lj}) and addressable({Lj}) and allocated({Lj}) and not size_fails({Lj})'),
+    # the lines are distinct objects and every byte-producing line owns its buffer
+    f'forall(lambda j, k: implies(0 <= j and j < k and k < {N}, {Lj} != {Lk}'
+    f' and implies(is_bytes_line({Lj}) and is_bytes_line({Lk}), not ({Lj}._bytes is {Lk}._bytes))))',
+    # sorted by address (the engine sorts the list just before this block)
+    f'forall(lambda j, k: implies(0 <= j and j < k and k < {N}, a_of({Lj}) <= a_of({Lk})))',
+]
+
+OVERLAP = dict(
+    where='loop[3]', locals={LST: 'list[LineObject]', 'last_line': 'LineWithBytes?', 'lobj': 'LineObject'},
+    requires=LIST_OK + ['last_line is None',
+                        all_lines(f'implies(is_bytes_line({Lj}), len({Lj}._bytes) == 0)')],
+    may_raise={'SystemExit': 'True', 'ValueError': 'True', 'NotImplementedError': 'True'},
+    ensures=[
+        # C04: if the pass completes, no two byte-producing lines occupy a common address
+        f'forall(lambda j, k: implies(0 <= j and j < k and k < {N} and is_bytes_line({Lj}) and is_bytes_line({Lk}),'
+        f' end_of({Lj}) <= a_of({Lk})))',
+        # C02: what every byte-producing line finally emitted is exactly the space reserved for it
+        all_lines(f'implies(is_bytes_line({Lj}), len({Lj}._bytes) == line_size({Lj}))'),
+        all_lines(f'line_size({Lj}) == old(line_size({Lj}))'),
+    ],
+    modifies=['all-lists:bytearray', '*._count:FillDataLine', '*._value:FillDataLine',
+              '*._fill_until_addr:FillUntilDataLine', '*._fill_value:FillUntilDataLine'],
+    allocates=True)
+
+OVERLAP_INV = dict(
+    idx='i', allocates=True,
+    modifies=['all-lists:bytearray', '*._count:FillDataLine', '*._value:FillDataLine',
+              '*._fill_until_addr:FillUntilDataLine', '*._fill_value:FillUntilDataLine'],
+    inv=LIST_OK + [
+        f'i <= {N}',
+        all_lines(f'line_size({Lj}) == entry(line_size({Lj}))'),
+        # processed byte lines carry their bytes, the others are still empty
+        all_lines(f'implies(is_bytes_line({Lj}), len({Lj}._bytes) == line_size({Lj}))', hi='i'),
+        all_lines(f'implies(is_bytes_line({Lj}), len({Lj}._bytes) == 0)', lo='i'),
+        # pairwise disjointness of the processed byte lines
+        f'forall(lambda j, k: implies(0 <= j and j < k and k < i and is_bytes_line({Lj}) and is_bytes_line({Lk}),'
+        f' end_of({Lj}) <= a_of({Lk})))',
+        # last_line is the latest byte line seen: everything before it ends no later than it does
+        all_lines(f'implies(is_bytes_line({Lj}), last_line is not None and end_of({Lj}) <= end_of(last_line))', hi='i'),
+        'implies(last_line is not None, is_bytes_line(last_line) and line_wf(last_line) and addressable(last_line)'
+        ' and not size_fails(last_line) and allocated(last_line))',
+        all_lines('implies(last_line is not None, a_of(last_line) <= a_of(' + Lj + ') and last_line != ' + Lj + ')', lo='i'),
+    ])
+
+contract(ENG, props=['C02', 'C04', 'C05'], name='engine', blocks_only=True,
+         blocks={'place': PLACE, 'overlap': OVERLAP}, loops={'3': OVERLAP_INV})
